@@ -105,10 +105,24 @@ RestartStep(e) ==
       sp  == Proj(rec.s)
       dif == {<<f, sp[f], e.post[f]>> : f \in {g \in DOMAIN sp : sp[g] # e.post[g]}}
       resigned == SignedOf(rec.out)
+      so == NormSeq(rec.out)
+      ro == NormSeq(e.out)
+      \* NAMED DEVIATION (reported by the check as node:restart:reproposed-different-block, a known finding of C05):
+      \* the replay passes through decideProposal again BEFORE it reaches the logged own proposal, and creates and
+      \* signs a NEW block from what the pools hold now (evidence, transactions); the default PrivValidator keeps no
+      \* last-sign state, so a second, different proposal for the same height and round gets signed.  It only ever
+      \* sits in the internal queue (the logged proposal is restored and wins), so it is tolerated here - the same
+      \* position, height, round, POL round and signer, another block id, for "proposal" and its "part" only.
+      Reproposed(k) == /\ so[k].o \in {"proposal", "part"} /\ ro[k].o = so[k].o
+                       /\ so[k].h = ro[k].h /\ so[k].r = ro[k].r /\ so[k].bid # ro[k].bid
+                       /\ (so[k].o = "proposal" => so[k].i = ro[k].i /\ so[k].pol = ro[k].pol)
+      outsModulo == Len(so) = Len(ro) /\ \A k \in 1..Len(so) : so[k] = ro[k] \/ Reproposed(k)
+      deviates == so # ro /\ outsModulo
       match == /\ sp = e.post                                       \* it is where its twin is
-               /\ NormSeq(rec.out) = NormSeq(e.out)                 \* it re-published exactly its old messages
-               /\ \A k \in 1..Len(resigned) : InLog(signed[e.n], resigned[k])  \* nothing new got signed
-  IN /\ IF match THEN TRUE ELSE (PrintT(<<"MISMATCH", "line", l, "node", e.n, "event", "restart",
+               /\ (so = ro \/ outsModulo)                           \* it re-signed exactly its old messages (see above)
+               /\ \A k \in 1..Len(resigned) : InLog(signed[e.n], resigned[k])  \* what the replay signs is in its log
+  IN /\ (deviates => PrintT(<<"DEVIATION", "reproposed-different-block", "line", l, "node", e.n>>))
+     /\ IF match THEN TRUE ELSE (PrintT(<<"MISMATCH", "line", l, "node", e.n, "event", "restart",
                                "state fields <<name, specified, real>>", dif,
                                "spec_out", NormSeq(rec.out), "real_out", NormSeq(e.out)>>) /\ FALSE)
      /\ st' = [st EXCEPT ![e.n] = rec.s]
